@@ -69,6 +69,11 @@ var taoFoto = ev.Register(&ev.P[dayCase]{
 		y, mo, d := ref.FromJDN(c.J)
 		s := calendar.NewSolar(y, mo, d, c.H, c.Mi, c.S)
 		l := s.GetLunar()
+		// between building the date and asking it, the library is used for a neighbouring year (whatever table the
+		// one-slot cache holds when a predicate is asked must not matter)
+		if ny := l.GetYear() + []int{-1, 1}[ref.Mod(c.J, 2)]; ny >= 1 && ny <= 9998 {
+			_ = calendar.NewLunarYear(ny)
+		}
 		w := s.ToYmdHms()
 		ly, lm, ld := l.GetYear(), l.GetMonth(), l.GetDay()
 		tao, foto := l.GetTao(), l.GetFoto()
@@ -201,6 +206,9 @@ var taoFoto = ev.Register(&ev.P[dayCase]{
 				foto.IsDayYangGong(), foto.IsDayZhaiShuoWang(), foto.IsDayZhaiSix(), foto.IsDayZhaiTen(), foto.IsDayZhaiGuanYin(), foto.IsMonthZhai(), foto.GetXiu(), foto.GetGong(), foto.GetShou())
 		}
 		p0 := preds()
+		if ny := l.GetYear() + []int{1, -1}[ref.Mod(c.J, 2)]; ny >= 1 && ny <= 9998 { // the other neighbour's table is in the cache for the second asking
+			_ = calendar.NewLunarYear(ny)
+		}
 		l.GetEightChar().SetSect(1)
 		if p1 := preds(); p1 != p0 {
 			return fmt.Errorf("%s (lunar %d/%d/%d): Tao/Foto predicates %s become %s after the chart's SetSect(1)", w, ly, lm, ld, p0, p1)
@@ -275,6 +283,9 @@ func TestC17(t *testing.T) {
 	// little answers the previous question)
 	{
 		start := ref.JDN(2019, 1, 1) + ev.Shard*230
+		if ev.Shard == 0 {
+			start = ref.JDN(18, 4, 1) // the years whose neighbouring tables label a month differently
+		}
 		for _, perm := range ev.Shuffled(460, ev.Pick(2, 8), 17) {
 			for _, k := range perm {
 				taoFoto.Eval(dayCase{start + k, []int{12, 23, 0}[k%3], 30, 0})
